@@ -221,6 +221,13 @@ func (d *decayer) process() {
 				peer, tag = bmp.peer, bmp.tag
 			)
 
+			if tag.closed.Load() {
+				// The tag was closed after this bump was queued. The close command removes
+				// (or has already removed) the tag from every peer; applying the bump now
+				// could leave a value behind that is never decayed and cannot be removed.
+				continue
+			}
+
 			s := d.mgr.segments.get(peer)
 			s.Lock()
 
